@@ -20,6 +20,50 @@ from sourmash._lowlevel import lib
 HF = {"DNA": 1, "protein": 2, "dayhoff": 3, "hp": 4}
 
 
+class ViewError(Exception):
+    """two routes to the same fact about one object disagree, or an object handed out earlier changed"""
+
+
+# ROUTES: wherever sourmash offers several spellings that end in the same helper / native call the adapter
+# alternates among them; the model never sees which.  The choice is a function of the op's text and of a counter
+# inside the op (so a shrunk case replays the same routes) plus the per-case op counter parity.
+_RS = [0]
+CASE_OPS = [0]
+
+
+def route_seed(line):
+    import zlib
+    _RS[0] = zlib.crc32(line.encode()) & 0x7FFFFFFF
+
+
+def pick(n):
+    _RS[0] = (_RS[0] * 1103515245 + 12345) & 0x7FFFFFFF
+    return (_RS[0] >> 16) % n
+
+
+# HISTORIES: every object a call returned is kept, uncopied, until the end of the case together with the
+# observation made when it was returned; after every later op the observation is made again.
+KEPT = []
+
+
+def keep(what, thunk, seen=None):
+    KEPT.append((what, thunk, thunk() if seen is None else seen))
+    if len(KEPT) > 40:
+        del KEPT[0:len(KEPT) - 40]
+
+
+def reverify():
+    for what, thunk, seen in KEPT:
+        now = thunk()
+        if now != seen:
+            raise ViewError(f"history: {what} was {str(seen)[:120]} when returned and is {str(now)[:120]} after later calls")
+
+
+def sig_view(sig):
+    """everything readable about a signature object, through the JSON writer"""
+    return sigmod.save_signatures_to_json([sig])
+
+
 def unhex(tok):
     return "" if tok == "-" else bytes.fromhex(tok).decode("latin-1")
 
@@ -57,14 +101,50 @@ def reason_of(e):
 
 
 def sketches_of(sig):
-    """every sketch of a signature, through the JSON writer (BTree Serialize) and reader"""
+    """every sketch of a signature, through the JSON writers (BTree Serialize: `signatures_save_buffer` plain and
+    gzip, `signature_save_json`) and the reader; the views of one object must agree"""
+    import gzip
+    from sourmash.utils import rustcall, decode_str
+    order = pick(2)
+    first = sig.minhash if order == 0 and len(sig) > 0 else None
     js = sigmod.save_signatures_to_json([sig])
-    written = [sk["md5sum"] for rec in json.loads(js) for sk in rec["signatures"]]     # BTree md5sum(), as written
+    recs = json.loads(js)
+    if len(recs) != 1:
+        raise ViewError(f"one signature was written as {len(recs)} records")
+    route = pick(3)
+    if route == 1:
+        js2 = gzip.decompress(sigmod.save_signatures_to_json([sig], compression=1 + pick(9)))
+        if json.loads(js2) != recs:
+            raise ViewError("the gzip writer and the plain writer of signatures_save_buffer disagree")
+    elif route == 2:
+        one = json.loads(decode_str(rustcall(lib.signature_save_json, sig._get_objptr())))
+        if one != recs[0]:
+            raise ViewError("signature_save_json and signatures_save_buffer disagree")
+    if len(sig) != len(recs[0]["signatures"]):
+        raise ViewError(f"len(sig) = {len(sig)} but {len(recs[0]['signatures'])} sketches are written")
+    if recs[0].get("license") != "CC0" or sig.license != "CC0":
+        raise ViewError(f"license written {recs[0].get('license')!r}, attribute {sig.license!r}")
+    if (recs[0].get("name") or "") != sig.name or (recs[0].get("filename") or "") != sig.filename:
+        raise ViewError(f"name/filename written ({recs[0].get('name')!r}, {recs[0].get('filename')!r}) "
+                        f"!= attributes ({sig.name!r}, {sig.filename!r})")
+    written = [sk["md5sum"] for rec in recs for sk in rec["signatures"]]     # BTree md5sum(), as written
     loaded = list(sigmod.load_signatures_from_json(js))
-    recomputed = [s.md5sum() for s in loaded]          # the reader does not trust the file: recomputed from the hashes
+    recomputed = [x.md5sum() for x in loaded]          # the reader does not trust the file: recomputed from the hashes
     if written != recomputed:
-        raise AssertionError(f"md5 written by the tree-backed sketch {written} != md5 of the hashes read back {recomputed}")
-    return [s.minhash for s in loaded], written
+        raise ViewError(f"md5 written by the tree-backed sketch {written} != md5 of the hashes read back {recomputed}")
+    for x, sk in zip(loaded, recs[0]["signatures"]):
+        mh = x.minhash
+        if not (len(mh) == len(sk["mins"]) == len(mh.hashes) == len(list(mh.hashes))):
+            raise ViewError(f"len {len(mh)} / written mins {len(sk['mins'])} / hashes {len(mh.hashes)} disagree")
+        if ("abundances" in sk) != bool(mh.track_abundance):
+            raise ViewError("abundances written for a flat sketch or missing for a weighted one")
+        if SourmashSignature(mh).md5sum() != x.md5sum() or x.md5sum() != x.md5sum():
+            raise ViewError("md5sum of the signature and of its sketch disagree")
+    if len(sig) > 0:
+        m1 = sig.minhash if first is None else first
+        if SourmashSignature(m1).md5sum() != written[0] or sorted(m1.hashes.items()) != sorted(loaded[0].minhash.hashes.items()):
+            raise ViewError("sig.minhash (signature_first_mh) and the written first sketch disagree")
+    return [x.minhash for x in loaded], written
 
 
 def params_rec(mh):
@@ -87,14 +167,20 @@ def mol_arg(tok):
 
 
 def add_all(objs, seqs, input_kind, force):
-    """command_compute.add_seq: record-major, every sketch object in order; the first exception
-    aborts (the command exits), so what the objects hold afterwards is not observable"""
+    """record-major, every sketch object in order; the first exception aborts (the command exits), so what the
+    objects hold afterwards is not observable.  Routes: the methods themselves, `add_seq` of command_sketch
+    (what `sketch` runs) and `add_seq` of command_compute (what `compute` runs)."""
+    from sourmash import command_sketch, command_compute
     for s in seqs:
-        for obj in objs:
-            if input_kind == "protein":
-                obj.add_protein(s)
-            else:
-                obj.add_sequence(s, force)
+        r = pick(3)
+        if r == 0:
+            for obj in objs:
+                if input_kind == "protein":
+                    obj.add_protein(s)
+                else:
+                    obj.add_sequence(s, force)
+        else:
+            (command_sketch if r == 1 else command_compute).add_seq(objs, s, input_kind == "protein", not force)
 
 
 _NATIVE = None
@@ -125,6 +211,7 @@ def run_names(w):
     temp dir under .build/tmp; what it wrote where: path|name|filename|md5 per signature, sorted by path"""
     import argparse, os, shutil, tempfile
     from sourmash.command_sketch import _execute_sketch
+    from sourmash import command_sketch
     mflags = w[1].split("+")
     mode, flags = mflags[0], mflags[1:]
     k = int(w[2])
@@ -146,42 +233,102 @@ def run_names(w):
     try:
         os.chdir(tmp)
         for fname, recs in files:
-            if os.path.dirname(fname):
-                os.makedirs(os.path.dirname(fname), exist_ok=True)
-            with open(fname, "w") as fh:
-                for n, q in recs:
-                    fh.write(f">{n}\n{q}\n")
+            write_input(fname, recs)
         if "dir" in flags:
             os.mkdir("outd")
+        preexisting(flags, files)
         inputs = set(f for f, _ in files)
         merge = unhex(mode.split(":")[1]) if mode.startswith("merge:") else ""
         single = not any(f in flags for f in ("dir", "newdir", "cwd"))
         args = argparse.Namespace(filenames=[f for f, _ in files], output="out.sig" if single else None,
                                   output_dir="outd" if ("dir" in flags or "newdir" in flags) else None, merge=merge,
                                   singleton=(mode == "singleton"), name_from_first=(mode == "first"),
-                                  input_is_protein=False, check_sequence=("check" in flags), license="CC0", force=True,
+                                  input_is_protein=False, check_sequence=("check" in flags),
+                                  license=LIC_POOL[pick(len(LIC_POOL))] if "lic" in flags else "CC0", force=("force" in flags),
                                   quiet=True, randomize=("rand" in flags), from_file=None)
         # --randomize is accepted by `sketch dna|protein|translate` but only `compute` acts on it: _execute_sketch
         # ignores the flag, the order of the inputs is kept
-        factory = _signatures_for_sketch_factory([f"k={k},scaled=1"], "dna")
+        route = pick(3)
         try:
-            _execute_sketch(args, factory)
-        except SystemExit:
-            return "err SystemExit"
+            if route == 0:
+                _execute_sketch(args, _signatures_for_sketch_factory([f"k={k},scaled=1"], "dna"))
+            elif route == 1:
+                args.param_string = [f"k={k},scaled=1"]
+                command_sketch.dna(args)
+            else:
+                from sourmash.__main__ import main as sm_main
+                argv = ["sketch", ["dna", "rna"][pick(2)], "-p", f"scaled=1,k={k}"]
+                argv += ["-o", "out.sig"] if single else (["--output-dir", args.output_dir] if args.output_dir else [])
+                argv += (["--merge", merge] if merge else []) + (["--singleton"] if args.singleton else [])
+                argv += (["--name-from-first"] if args.name_from_first else []) + (["--check-sequence"] if args.check_sequence else [])
+                argv += (["--license", args.license] if "lic" in flags else []) + (["-f"] if args.force else [])
+                argv += (["--randomize"] if args.randomize else []) + args.filenames
+                sm_main(argv)
+        except SystemExit as e:
+            if e.code not in (None, 0):
+                return "err SystemExit"
         got = []
-        outs = []
-        for d, _, fs in os.walk("."):
-            for f in fs:
-                pth = os.path.normpath(os.path.join(d, f))
-                if pth.endswith(".sig") and pth not in inputs:
-                    outs.append(pth)
-        for pth in sorted(outs):
-            for ss in sourmash.load_file_as_signatures(pth):
+        for pth in sorted(output_files(inputs)):
+            for ss in file_views(pth):
                 got.append(f"{hexs(pth)}|{hexs(ss.name)}|{hexs(ss.filename)}|{ss.md5sum()}")
+                keep(f"signature loaded from {pth}", (lambda ss=ss: rec_of(ss)))
         return "ok " + ";".join(got)
     finally:
         os.chdir(old)
         shutil.rmtree(tmp, ignore_errors=True)
+
+
+MARKER = "[]\n"
+LIC_POOL = ["cc0", "GPL", "Cc0", "", "CC0 ", "CC-0", "cc0", "MIT"]          # anything but exactly CC0 is refused
+
+
+def preexisting(flags, files):
+    """`+pre`: the output file of the FIRST input exists before the command runs (per-file layouts only)"""
+    import os
+    if "pre" in flags and files and ("dir" in flags or "cwd" in flags):
+        pth = os.path.basename(files[0][0]) + ".sig"
+        if "dir" in flags:
+            pth = os.path.join("outd", pth)
+        with open(pth, "w") as fh:
+            fh.write(MARKER)
+
+
+def output_files(inputs):
+    """the .sig files under the working directory that the command wrote (a pre-existing marker left alone is not one)"""
+    import os
+    outs = []
+    for d, _, fs in os.walk("."):
+        for f in fs:
+            pth = os.path.normpath(os.path.join(d, f))
+            if pth.endswith(".sig") and pth not in inputs and not pth.startswith("alt"):
+                if open(pth, "rb").read() == MARKER.encode():
+                    continue
+                outs.append(pth)
+    return outs
+
+
+def write_input(fname, recs):
+    """one input file; the container alternates (screed sniffs the content, not the file name): FASTA, FASTA
+    with wrapped sequence lines, FASTQ, and gzip of either - the records are the same"""
+    import gzip, os
+    if os.path.dirname(fname):
+        os.makedirs(os.path.dirname(fname), exist_ok=True)
+    plain = any((not n) or (not q) for n, q in recs) or not recs
+    fmt = 0 if plain else pick(6)
+    if fmt in (2, 5):
+        text = "".join(f"@{n}\n{q}\n+\n{'I' * len(q)}\n" for n, q in recs)
+    elif fmt in (1, 4):
+        w = 1 + pick(9)
+        text = "".join(f">{n}\n" + "".join(q[i:i + w] + "\n" for i in range(0, len(q), w)) for n, q in recs)
+    else:
+        text = "".join(f">{n}\n{q}\n" for n, q in recs)
+    if fmt >= 3:
+        with gzip.open(fname, "wt", newline="") as fh:
+            fh.write(text)
+    else:
+        with open(fname, "w", newline="") as fh:
+            fh.write(text)
+    return text
 
 
 def _parse_files(toks):
@@ -206,8 +353,22 @@ def _tmpdir(prefix):
     return tempfile.mkdtemp(prefix=prefix, dir=base)
 
 
-def _cli(argv):
-    """the command line, in-process: sourmash.__main__.main(argv); returns None on success or the error token"""
+def _cli(argv, stdin_data=None):
+    """the command line: sourmash.__main__.main(argv) in this process; with an input read from standard input
+    (`-`) a child interpreter, since this process's stdin carries the ops.  None on success or the error token"""
+    if stdin_data is not None:
+        import os, re, subprocess
+        env = dict(os.environ, PYTHONPATH=os.pathsep.join(x for x in sys.path if x))
+        r = subprocess.run([sys.executable, "-m", "sourmash"] + argv, input=stdin_data.encode("latin-1"),
+                           stdout=subprocess.PIPE, stderr=subprocess.PIPE, env=env)
+        if r.returncode == 0:
+            return None
+        err = r.stderr.decode("latin-1", "replace")
+        if "Traceback (most recent call last)" in err:
+            last = [l for l in err.strip().splitlines() if l.strip()][-1]
+            m = re.match(r"([A-Za-z_.]+)", last)
+            return "err " + (m.group(1).split(".")[-1] if m else "?")
+        return "err SystemExit"
     import sourmash.__main__
     try:
         with contextlib.redirect_stdout(io.StringIO()):
@@ -219,39 +380,116 @@ def _cli(argv):
     return None
 
 
+def file_views(pth):
+    """a written .sig / .sig.gz file read as text next to the loaded objects: the md5sum FIELD the command wrote
+    must be the md5sum() of the loaded signature, the license CC0, name / filename / sizes the attributes"""
+    import gzip
+    raw = open(pth, "rb").read()
+    if raw[:2] == b"\x1f\x8b":
+        raw = gzip.decompress(raw)
+    recs = json.loads(raw)
+    loaded = list(sourmash.load_file_as_signatures(pth))
+    flat = [(rec, sk) for rec in recs for sk in rec["signatures"]]
+    if len(flat) != len(loaded):
+        raise ViewError(f"{pth}: {len(flat)} sketches written, {len(loaded)} signatures loaded")
+    for (rec, sk), ss in zip(flat, loaded):
+        mh = ss.minhash
+        if sk["md5sum"] != ss.md5sum() or SourmashSignature(mh).md5sum() != sk["md5sum"]:
+            raise ViewError(f"{pth}: md5sum field {sk['md5sum']} but the loaded signature has {ss.md5sum()}")
+        if rec.get("license") != "CC0" or ss.license != "CC0":
+            raise ViewError(f"{pth}: license {rec.get('license')!r}")
+        if (rec.get("name") or "") != ss.name or (rec.get("filename") or "") != ss.filename:
+            raise ViewError(f"{pth}: name/filename fields differ from the attributes")
+        if not (len(sk["mins"]) == len(mh) == len(mh.hashes)) or sk["mins"] != sorted(mh.hashes):
+            raise ViewError(f"{pth}: mins written / len / hashes disagree")
+        if sk["ksize"] != mh._methodcall(lib.kmerminhash_ksize) or sk["seed"] != mh.seed or sk["num"] != mh.num or sk["max_hash"] != mh._max_hash:
+            raise ViewError(f"{pth}: parameters written differ from the loaded sketch")
+        if ("abundances" in sk) != bool(mh.track_abundance):
+            raise ViewError(f"{pth}: abundances field vs track_abundance")
+        if mh.track_abundance and sk["abundances"] != [mh.hashes[h] for h in sk["mins"]]:
+            raise ViewError(f"{pth}: abundances written differ from the loaded ones")
+    return loaded
+
+
+def rec_of(ss, pth=None):
+    body = f"{hexs(ss.name)}|{hexs(ss.filename)}|{params_rec(ss.minhash)}|{ss.md5sum()}"
+    return body if pth is None else f"{hexs(pth)}|{body}"
+
+
 def _collect(inputs):
-    import os
-    outs = []
-    for d, _, fs in os.walk("."):
-        for f in fs:
-            pth = os.path.normpath(os.path.join(d, f))
-            if pth.endswith(".sig") and pth not in inputs:
-                outs.append(pth)
     got = []
-    for pth in sorted(outs):
-        for ss in sourmash.load_file_as_signatures(pth):
-            got.append(f"{hexs(pth)}|{hexs(ss.name)}|{hexs(ss.filename)}|{params_rec(ss.minhash)}|{ss.md5sum()}")
+    for pth in sorted(output_files(inputs)):
+        for ss in file_views(pth):
+            got.append(rec_of(ss, pth))
+            keep(f"signature loaded from {pth}", (lambda ss=ss: rec_of(ss)))
     return "ok " + ";".join(got)
 
 
+def other_formats(argv, stdin_data, canonical):
+    """`-o` routes: the same command once more into .sig.gz / .zip / a directory / .sqldb; what is written must
+    reload to the sketches the .sig route wrote (exact duplicates collapse in a zip: known finding C10.1; an
+    SqliteIndex refuses num sketches), and a zip's manifest rows must describe the signatures they point to"""
+    import os
+    if "-o" not in argv or stdin_data is not None:
+        return
+    want = sorted(x.split("|", 1)[1] for x in canonical[3:].split(";") if x)
+    alt = ["alt.sig.gz", "alt.zip", "altdir/", "alt.sqldb", "alt2.sig"][pick(5)]
+    a2 = list(argv)
+    a2[a2.index("-o") + 1] = alt
+    try:
+        e = _cli(a2)
+    except Exception as exc:                    # noqa: BLE001
+        e = f"err {exc_name(exc)}: {exc}"
+    if e is not None:
+        if alt == "alt.sqldb" and (e.startswith("err ValueError") or "SQLite INTEGER" in e):
+            return       # an SqliteIndex refuses (ValueError) num sketches, sketches with abundance and a second
+                         # scaled value, and dies (OverflowError) on a seed >= 2^63: limits of that container
+        raise ViewError(f"-o {alt}: {e} where -o out.sig succeeded")
+    if not os.path.exists(alt.rstrip("/")):
+        if want:
+            raise ViewError(f"-o {alt}: nothing written, -o out.sig wrote {len(want)} sketches")
+        return
+    if alt.endswith(".sig.gz") or alt.endswith(".sig"):
+        got = sorted(rec_of(x) for x in file_views(alt))
+    else:
+        got = sorted(rec_of(x) for x in sourmash.load_file_as_signatures(alt))
+    if alt == "alt.zip":
+        if set(got) != set(want) or len(got) > len(want):
+            raise ViewError(f"-o {alt} reloads to {got[:4]}.. ({len(got)}), -o out.sig wrote {want[:4]}.. ({len(want)})")
+        idx = sourmash.load_file_as_index(alt)
+        rows = sorted((r["name"] or "", r["filename"] or "", r["md5"], int(r["ksize"]), r["moltype"], int(r["num"]),
+                       int(r["scaled"]), int(r["n_hashes"]), bool(r["with_abundance"])) for r in idx.manifest.rows)
+        sigs = sorted((x.name, x.filename, x.md5sum(), x.minhash.ksize, x.minhash.moltype, x.minhash.num,
+                       x.minhash.scaled, len(x.minhash), bool(x.minhash.track_abundance))
+                      for x in sourmash.load_file_as_signatures("out.sig"))
+        if rows != sigs:
+            raise ViewError(f"zip manifest rows {rows[:3]}.. do not describe the signatures written {sigs[:3]}..")
+    elif got != want:
+        raise ViewError(f"-o {alt} reloads to {got[:4]}.. ({len(got)}), -o out.sig wrote {want[:4]}.. ({len(want)})")
+
+
 def _mode_argv(mode, flags, files):
-    """the file-handling options of sketch / compute for a mode+flags token; writes the inputs"""
+    """the file-handling options of sketch / compute for a mode+flags token; writes the inputs; an input
+    named `-` is standard input.  Returns (argv, stdin text or None)"""
     import os
     argv = []
+    stdin_data = None
     for fname, recs in files:
-        if os.path.dirname(fname):
-            os.makedirs(os.path.dirname(fname), exist_ok=True)
-        with open(fname, "w") as fh:
-            for n, q in recs:
-                fh.write(f">{n}\n{q}\n")
+        if fname == "-":
+            stdin_data = "".join(f">{n}\n{q}\n" for n, q in recs)
+        else:
+            write_input(fname, recs)
     if "dir" in flags:
         os.mkdir("outd")
+    preexisting(flags, files)
+    if "force" in flags:
+        argv.append(["-f", "--force"][pick(2)])
     if "dir" in flags or "newdir" in flags:
-        argv += ["--output-dir", "outd"]
+        argv += ["--output-dir" if pick(2) else "--outdir", "outd"]
     elif "cwd" not in flags:
         argv += ["-o", "out.sig"]
     if mode.startswith("merge:"):
-        argv += ["--merge", unhex(mode.split(":")[1])]
+        argv += [["--merge", "--name"][pick(2)], unhex(mode.split(":")[1])]
     elif mode == "singleton":
         argv.append("--singleton")
     elif mode == "first":
@@ -260,6 +498,10 @@ def _mode_argv(mode, flags, files):
         argv.append("--randomize")
     if "check" in flags:
         argv.append("--check-sequence")
+    if "lic" in flags:
+        argv += ["--license", LIC_POOL[pick(len(LIC_POOL))]]
+    elif pick(4) == 0:
+        argv += ["--license", "CC0"]
     names = [f for f, _ in files]
     if "fromfile" in flags:
         with open("inputs.txt", "w") as fh:
@@ -267,7 +509,10 @@ def _mode_argv(mode, flags, files):
         argv += ["--from-file", "inputs.txt"]
     else:
         argv += names
-    return argv
+    return argv, stdin_data
+
+
+DNA_ALIASES = ("dna", "rna", "nucleotide", "nt")
 
 
 def run_sk(w):
@@ -282,14 +527,19 @@ def run_sk(w):
     old = os.getcwd()
     try:
         os.chdir(tmp)
-        argv = ["sketch", sub]
-        if sub != "dna" and dm in ("dayhoff", "hp"):
+        argv = ["sketch", sub]           # the op names the subcommand as typed: dna / rna / nucleotide / nt, protein / aa / prot
+        if sub not in DNA_ALIASES and dm in ("dayhoff", "hp"):
             argv.append("--" + dm)
-        for s in ps:
-            argv += ["-p", s]
-        argv += _mode_argv(mflags[0], mflags[1:], files)
-        e = _cli(argv)
-        return e if e else _collect(set(f for f, _ in files))
+        for x in ps:
+            argv += [["-p", "--param-string"][pick(2)], x]
+        rest, stdin_data = _mode_argv(mflags[0], mflags[1:], files)
+        argv += rest
+        e = _cli(argv, stdin_data)
+        if e:
+            return e
+        res = _collect(set(f for f, _ in files))
+        other_formats(argv, stdin_data, res)
+        return res
     finally:
         os.chdir(old)
         shutil.rmtree(tmp, ignore_errors=True)
@@ -306,23 +556,72 @@ def run_cmp(w):
     old = os.getcwd()
     try:
         os.chdir(tmp)
-        argv = ["compute", "-q", "-k", ks, "-n", num, "--seed", seed]
-        argv.append("--dna" if dna == "1" else "--no-dna")
+        argv = ["compute", "-q", ["-k", "--ksizes"][pick(2)], ks]
+        if num != "500" or pick(2):
+            argv += [["-n", "--num-hashes"][pick(2)], num]
+        if seed != "42" or pick(2):
+            argv += ["--seed", seed]
+        if dna != "1" or pick(2):
+            argv.append(["--dna", "--rna", "--nucleotide"][pick(3)] if dna == "1" else ["--no-dna", "--no-rna", "--no-nucleotide"][pick(3)])
         for flag, v in (("protein", pr), ("dayhoff", dy), ("hp", hp)):
             if v == "1":
                 argv.append("--" + flag)
-        if sc != "0":
+            elif pick(3) == 0:
+                argv.append("--no-" + flag)
+        if sc != "0" or pick(3) == 0:
             argv += ["--scaled", {"lt1": "0.5", "frac": "2.5"}.get(sc, sc)]
         if tr == "1":
             argv.append("--track-abundance")
         if inprot == "1":
             argv.append("--input-is-protein")
-        argv += _mode_argv(mflags[0], mflags[1:], files)
-        e = _cli(argv)
-        return e if e else _collect(set(f for f, _ in files))
+        rest, stdin_data = _mode_argv(mflags[0], mflags[1:], files)
+        argv += rest
+        e = _cli(argv, stdin_data)
+        if e:
+            return e
+        res = _collect(set(f for f, _ in files))
+        other_formats(argv, stdin_data, res)
+        return res
     finally:
         os.chdir(old)
         shutil.rmtree(tmp, ignore_errors=True)
+
+
+def fromfile_views(args, built, info, mm):
+    """--output-csv-info: one row per (name, file) to build whose -p strings, read back by the parser, are the
+    parameters of the signatures built for that name from that file; --output-manifest-matching: rows of the
+    already-done collection, never one that was also built"""
+    import csv, os
+    from sourmash.command_sketch import _signatures_for_sketch_factory as fac
+    key = lambda name, fields: (name,) + tuple(fields)
+    def fields_of(ss):
+        mh = ss.minhash
+        k = mh._methodcall(lib.kmerminhash_ksize)
+        return ([k], mh.seed, mh.moltype == "protein", mh.moltype == "dayhoff", mh.moltype == "hp", mh.moltype == "DNA",
+                mh.num, bool(mh.track_abundance), mh.scaled)
+    have = sorted(key(ss.name, fields_of(ss)) + (ss.filename,) for ss in built)
+    if info:
+        if not os.path.exists(info):
+            raise ViewError("--output-csv-info: no file written although signatures were built")
+        rows = list(csv.DictReader(open(info, newline="")))
+        want = []
+        for i, r in enumerate(rows):
+            if int(r["output_index"]) != i:
+                raise ViewError(f"--output-csv-info: output_index {r['output_index']} in row {i}")
+            strs = [x for x in r["param_strs"].split("-p ") if x.strip()]
+            cps = list(fac([x.strip() for x in strs], None).get_compute_params(split_ksizes=True))
+            if any(c.dna != (r["sketchtype"] == "dna") for c in cps):
+                raise ViewError(f"--output-csv-info: sketchtype {r['sketchtype']} for {r['param_strs']}")
+            want += [key(r["name"], cp_fields(c)) + (r["filename"],) for c in cps]
+        if sorted(want) != have:
+            raise ViewError(f"--output-csv-info describes {sorted(want)[:3]}.. ({len(want)}), built were {have[:3]}.. ({len(have)})")
+    if mm and os.path.exists(mm):
+        from sourmash.manifest import CollectionManifest
+        done = CollectionManifest.load_from_filename(mm)
+        for row in done.rows:
+            c = ComputeParameters.from_manifest_row(row)
+            if key(row["name"], cp_fields(c)) in [h[:-1] for h in have]:
+                raise ViewError(f"--output-manifest-matching lists {row['name']} {cp_fields(c)} which was built again")
 
 
 def run_fromfile(w, cli=False):
@@ -360,9 +659,7 @@ def run_fromfile(w, cli=False):
     try:
         os.chdir(tmp)
         for fname, recs in files:
-            with open(fname, "w") as fh:
-                for n, q in recs:
-                    fh.write(f">{n}\n{q}\n")
+            write_input(fname, recs)
         with open("in.csv", "w", newline="") as fh:
             import csv
             cw = csv.writer(fh)
@@ -379,16 +676,32 @@ def run_fromfile(w, cli=False):
                                  hp=(mol == "hp"), track_abundance=bool(int(ab)), scaled=int(scaled))
                     save.add(SourmashSignature(mh, name=unhex(n)))
             already = ["done.zip"]
+        # (a row naming ONE file as genome and as proteome puts DNA and protein parameters under one (name, file)
+        # key: `_output_csv_info` then dies on its `assert all(p.dna ...)` after the signatures were written -
+        # observation, outside the statement; the csv-info route is not taken for such a CSV)
+        same_file = any(t.split(":")[1] == t.split(":")[2] != "-" for t in rtoks)
+        info = "info.csv" if pick(2) and not same_file else None
+        mm = "mm.csv" if pick(2) else None
+        repdup = bool(pick(2))
+        # (a zip output collapses exact duplicates - `-p k=5,k=5` - into one member: known finding C10.1; the zip
+        # route is exercised by other_formats, where the comparison allows for it)
+        outname = ["out.sig", "out.sig.gz"][pick(2)]
         args = argparse.Namespace(csvs=["in.csv"], param_string=[unhex(t) for t in ps], already_done=already,
-                                  output_signatures="out.sig", force_output_already_exists=False,
-                                  ignore_missing=ign, output_csv_info=None, output_manifest_matching=None,
-                                  report_duplicated=False, check_sequence=False, license="CC0", quiet=True,
+                                  output_signatures=outname, force_output_already_exists=False,
+                                  ignore_missing=ign, output_csv_info=info, output_manifest_matching=mm,
+                                  report_duplicated=repdup, check_sequence=False, license="CC0", quiet=True,
                                   force=False)
         try:
             with contextlib.redirect_stdout(io.StringIO()):       # print_results() writes summaries to stdout
                 if cli:
                     from sourmash.__main__ import main as sm_main
-                    argv = ["sketch", "fromfile", "in.csv", "-o", "out.sig"]
+                    argv = ["sketch", "fromfile", "in.csv", ["-o", "--output-signatures"][pick(2)], outname]
+                    if info:
+                        argv += ["--output-csv-info", info]
+                    if mm:
+                        argv += ["--output-manifest-matching", mm]
+                    if repdup:
+                        argv.append("--report-duplicated")
                     for t in ps:
                         argv += ["-p", unhex(t)]
                     if already:
@@ -402,13 +715,137 @@ def run_fromfile(w, cli=False):
             if e.code is not None or not cli:
                 return f"exit {e.code}"
         got = []
-        if os.path.exists("out.sig"):
-            for ss in sourmash.load_file_as_signatures("out.sig"):
+        built = []
+        if os.path.exists(outname):
+            loaded = file_views(outname) if outname != "out.zip" else list(sourmash.load_file_as_signatures(outname))
+            for ss in loaded:
                 got.append(f"{hexs(ss.name)}|{hexs(ss.filename)}|{params_rec(ss.minhash)}|{ss.md5sum()}")
+                built.append(ss)
+                keep(f"signature loaded from {outname}", (lambda ss=ss: rec_of(ss)))
+        fromfile_views(args, built, info, mm)
         return "ok " + ";".join(got)
     finally:
         os.chdir(old)
         shutil.rmtree(tmp, ignore_errors=True)
+
+
+def run_sigeq(w):
+    """sigeq <defmol> <split> <dna|protein> <force> P <hex>.. D <k:mol:num:scaled:track:seed>.. S <hexseq>..
+    (the tokens of a `feed` op): SourmashSignature.__eq__ / __ne__ (signature_eq) between signatures built by the
+    factory (tree-backed), a signature around a directly created sketch fed the same records, and unfed ones"""
+    dm, split, kind, force = mol_arg(w[1]), bool(int(w[2])), w[3], bool(int(w[4]))
+    iP, iD, iS = w.index("P"), w.index("D"), w.index("S")
+    pl = [unhex(t) for t in w[iP + 1:iD]]
+    k, mol, num, scaled, track, seed = w[iD + 1].split(":")
+    seqs = [unhex(t) for t in w[iS + 1:]]
+    fac = _signatures_for_sketch_factory(pl, dm)
+    a, b, spare = fac(split_ksizes=split)[0], fac(split_ksizes=split)[0], fac(split_ksizes=split)[0]
+    mk = dict(is_protein=(mol == "protein"), dayhoff=(mol == "dayhoff"), hp=(mol == "hp"),
+              track_abundance=bool(int(track)), seed=int(seed), scaled=int(scaled))
+    direct, empty = MinHash(int(num), int(k), **mk), MinHash(int(num), int(k), **mk)
+    add_all([a, b, direct], seqs, kind, force)
+    da, de = SourmashSignature(direct), SourmashSignature(empty)
+
+    def ev(f):
+        try:
+            return str(bool(f()))
+        except BaseException as e:          # noqa: BLE001
+            return exc_name(e)
+    return (f"eq n={len(direct)} tt={ev(lambda: a == b)} ta={ev(lambda: a == da)} at={ev(lambda: da == a)} "
+            f"ae={ev(lambda: de == a)} te={ev(lambda: a == spare)} ne={ev(lambda: a != b)}")
+
+
+CP_FIELDS = ("ksizes", "seed", "protein", "dayhoff", "hp", "dna", "num_hashes", "track_abundance", "scaled")
+
+
+def cp_fields(cp):
+    return tuple(list(getattr(cp, n)) if n == "ksizes" else getattr(cp, n) for n in CP_FIELDS)
+
+
+def run_cp(w):
+    """cp <ks,> <seed> <protein> <dayhoff> <hp> <dna> <num> <track> <scaled>: a ComputeParameters object through one of
+    its routes (constructor keywords / defaults then every property setter in a rotated order / overwrite of an
+    object built with other values / from_args), of either copy of the class (command_sketch, command_compute);
+    every field read back through its getter; from_params; the round trips through to_param_str and through a
+    manifest row (what `fromfile` relies on)"""
+    import argparse
+    from sourmash import command_sketch, command_compute
+    from sourmash.manifest import CollectionManifest
+    ks = [int(x) for x in w[1].split(",")]
+    seed, pr, dy, hp, dna, num, tr, scaled = (int(x) for x in w[2:])
+    kw = dict(ksizes=ks, seed=seed, protein=bool(pr), dayhoff=bool(dy), hp=bool(hp), dna=bool(dna), num_hashes=num,
+              track_abundance=bool(tr), scaled=scaled)
+    want = tuple(kw[n] for n in CP_FIELDS)
+    cls = (command_sketch.ComputeParameters, command_compute.ComputeParameters)[pick(2)]
+    route = pick(4)
+    names = list(CP_FIELDS)
+    rot = pick(len(names))
+    order = names[rot:] + names[:rot]
+    if route == 0:
+        cp = cls(**kw)
+    elif route == 1:
+        cp = cls()
+        for n in order:
+            setattr(cp, n, kw[n])
+    elif route == 2:
+        cp = cls(ksizes=[k ^ 1 for k in ks] + [9], seed=seed ^ 5, protein=not pr, dayhoff=not dy, hp=not hp, dna=not dna,
+                 num_hashes=num ^ 1, track_abundance=not tr, scaled=scaled ^ 7)
+        for n in order:
+            setattr(cp, n, kw[n])
+    else:
+        cp = cls.from_args(argparse.Namespace(unrelated=1, **{n: kw[n] for n in order}))
+    if cp_fields(cp) != want:
+        raise ViewError(f"ComputeParameters route {route} of {cls.__module__}: set {want}, read back {cp_fields(cp)}")
+    if repr(cp) != (f"ComputeParameters(ksizes={ks}, seed={seed}, protein={bool(pr)}, dayhoff={bool(dy)}, hp={bool(hp)}, "
+                    f"dna={bool(dna)}, num_hashes={num}, track_abundance={bool(tr)}, scaled={scaled})"):
+        raise ViewError(f"repr {cp!r} does not show the fields {want}")
+    twin = (command_sketch.ComputeParameters, command_compute.ComputeParameters)[pick(2)](**kw)
+    if not (cp == twin and twin == cp):
+        raise ViewError("two ComputeParameters with the same fields compare unequal")
+    for n in CP_FIELDS:
+        other = dict(kw)
+        other[n] = (ks + [ks[0] ^ 1]) if n == "ksizes" else (not kw[n]) if isinstance(kw[n], bool) else kw[n] ^ 1
+        if cp == cls(**other):
+            raise ViewError(f"ComputeParameters differing only in {n} compare equal")
+    if pick(3) == 0:
+        # what `compute` does: the factory of either module, called with the parsed arguments
+        mod = (command_sketch, command_compute)[pick(2)]
+        got = mod._signatures_for_compute_factory(argparse.Namespace(**kw))()
+        if len(got) != 1:
+            raise ViewError(f"_signatures_for_compute_factory built {len(got)} signatures")
+        sig = got[0]
+    else:
+        sig = SourmashSignature.from_params(cp)
+    sig2 = SourmashSignature.from_params(cp)
+    if sum(1 for x in (pr, dy, hp, dna) if x) == 1:
+        want_mol = "DNA" if dna else "protein" if pr else "hp" if hp else "dayhoff"
+        if cp.moltype != want_mol:
+            raise ViewError(f"ComputeParameters.moltype {cp.moltype!r} for {want}")
+    if sig.name != "" or sig.filename != "" or sig.license != "CC0":
+        raise ViewError(f"from_params: name {sig.name!r} filename {sig.filename!r} license {sig.license!r}")
+    mhs, _ = sketches_of(sig)
+    res = "ok " + "|".join(params_rec(m) for m in mhs)
+    if cp_fields(cp) != want:
+        raise ViewError("from_params changed its ComputeParameters")
+    keep("ComputeParameters object", (lambda cp=cp: cp_fields(cp)), want)
+    keep("signature from_params", (lambda sig=sig: sig_view(sig)))
+    keep("second signature from the same ComputeParameters", (lambda sig2=sig2: sig_view(sig2)))
+    # the two conversions `sketch fromfile` relies on, where they are defined: one molecule type, num xor scaled
+    nmol = sum(1 for x in (pr, dy, hp, dna) if x)
+    if nmol == 1 and (num == 0) != (scaled == 0) and ks and (dna or all(k % 3 == 0 for k in ks)) and scaled < 2 ** 63:
+        st = cp.to_param_str()
+        back = list(_signatures_for_sketch_factory([st], None).get_compute_params())
+        if len(back) != 1 or cp_fields(back[0]) != want or not back[0] == cp:
+            raise ViewError(f"to_param_str {st!r} reads back as {[cp_fields(b) for b in back]}, the object holds {want}")
+        if seed == 42:
+            for k in ks:
+                one = cls(**dict(kw, ksizes=[k]))
+                mh = sketches_of(SourmashSignature.from_params(one))[0][0]
+                row = CollectionManifest.make_manifest_row(SourmashSignature(mh, name="x"), "loc", include_signature=False)
+                via = cls.from_manifest_row(row)
+                if cp_fields(via) != cp_fields(one) or not via == one:
+                    raise ViewError(f"from_manifest_row of the sketch built from {cp_fields(one)} gives {cp_fields(via)}")
+    return res
 
 
 def main():
@@ -420,9 +857,12 @@ def main():
             out.write("bad-op\n")
             continue
         op = w[0]
+        route_seed(line.strip())
         try:
             with contextlib.redirect_stderr(quiet):
                 if op == "#":
+                    reverify()
+                    del KEPT[:]
                     res = "#"
                 elif op == "parse" and len(w) == 2:
                     mt, p = _parse_params_str(unhex(w[1]))
@@ -433,22 +873,32 @@ def main():
                 elif op in ("factory", "first") and len(w) >= 3:
                     dm, split = mol_arg(w[1]), bool(int(w[2]))
                     pl = [unhex(t) for t in w[3:]]
-                    sigs = _signatures_for_sketch_factory(pl, dm)(split_ksizes=split)
+                    fac = _signatures_for_sketch_factory(pl, dm)
+                    sigs = fac(split_ksizes=split)
+                    keep("signatures of a second call of the factory",
+                         (lambda fac=fac, split=split: [sig_view(x) for x in fac(split_ksizes=split)]))
                     if op == "factory":
                         res = "ok " + ";".join("|".join(params_rec(m) for m in sketches_of(s)[0]) for s in sigs)
                     else:
                         res = "ok " + ";".join(params_rec(s.minhash) for s in sigs)
                 elif op == "cp" and len(w) == 10:
-                    ks = [int(x) for x in w[1].split(",")]
-                    seed, pr, dy, hp, dna, num, tr, scaled = (int(x) for x in w[2:])
-                    cp = ComputeParameters(ksizes=ks, seed=seed, protein=bool(pr), dayhoff=bool(dy), hp=bool(hp),
-                                           dna=bool(dna), num_hashes=num, track_abundance=bool(tr), scaled=scaled)
-                    sig = SourmashSignature.from_params(cp)
-                    res = "ok " + "|".join(params_rec(m) for m in sketches_of(sig)[0])
+                    res = run_cp(w)
                 elif op == "setname" and len(w) == 3:
-                    from sourmash.command_sketch import set_sig_name      # the copy `sketch` uses
-                    sig = _signatures_for_sketch_factory(["k=5,scaled=1"], "dna")()[0]
-                    set_sig_name([sig], unhex(w[1]), None if w[2] == "none" else unhex(w[2]))
+                    from sourmash import command_sketch, command_compute
+                    set_sig_name = (command_sketch, command_compute)[pick(2)].set_sig_name     # `sketch` / `compute`
+                    sigs = _signatures_for_sketch_factory(["k=5,scaled=1", "k=7,num=2"][:1 + pick(2)], "dna")()
+                    args = [sigs, unhex(w[1])]
+                    if w[2] == "none":
+                        set_sig_name(*args) if pick(2) else set_sig_name(*args, name=None)
+                    else:
+                        set_sig_name(*args, unhex(w[2])) if pick(2) else set_sig_name(*args, name=unhex(w[2]))
+                    if len(set((x.name, x.filename) for x in sigs)) != 1:
+                        raise ViewError("set_sig_name named the signatures of one set differently")
+                    sig = sigs[0]
+                    sketches_of(sig)
+                    if str(sig) != (sig.name or sig.filename or sig.md5sum()[:8]):
+                        raise ViewError(f"str(sig) = {str(sig)!r} with name {sig.name!r} filename {sig.filename!r}")
+                    keep("named signature", (lambda sig=sig: sig_view(sig)))
                     res = f"ok {hexs(sig.name)}|{hexs(sig.filename)}"
                 elif op == "fromfile" and len(w) >= 3:
                     res = run_fromfile(w)
@@ -462,6 +912,8 @@ def main():
                     res = run_names(w)
                 elif op == "native":
                     res = native(line)
+                elif op == "sigeq":
+                    res = run_sigeq(w)
                 elif op == "feed":
                     # feed <defmol> <split> <dna|protein> <force> P <hex>.. D <k:mol:num:scaled:track:seed>.. S <hexseq>..
                     dm, split, kind, force = mol_arg(w[1]), bool(int(w[2])), w[3], bool(int(w[4]))
@@ -470,14 +922,29 @@ def main():
                     specs = w[iD + 1:iS]
                     seqs = [unhex(t) for t in w[iS + 1:]]
                     try:
-                        sigs = _signatures_for_sketch_factory(pl, dm)(split_ksizes=split)
+                        fac = _signatures_for_sketch_factory(pl, dm)
+                        before = [cp_fields(c) for c in fac.get_compute_params(split_ksizes=split)]
+                        if pick(2):
+                            spare = fac(split_ksizes=split)          # a factory hands out fresh signatures on every call
+                            sigs = fac(split_ksizes=split)
+                        else:
+                            sigs = fac(split_ksizes=split)
+                            spare = fac(split_ksizes=split)
+                        empties = [sig_view(x) for x in spare]
                         ferr = None
                         try:
                             add_all(sigs, seqs, kind, force)
                         except BaseException as e:           # noqa: BLE001
                             ferr = exc_name(e)
+                        if [sig_view(x) for x in spare] != empties or [sig_view(x) for x in fac(split_ksizes=split)] != empties:
+                            raise ViewError("feeding the signatures of one factory call changed those of another call")
+                        if [cp_fields(c) for c in fac.get_compute_params(split_ksizes=split)] != before:
+                            raise ViewError("the factory's parameters changed while its signatures were fed")
+                        for x in spare:
+                            keep("unfed signature of the same factory", (lambda x=x: sig_view(x)))
                         F, M = [], []
                         for s in ([] if ferr else sigs):
+                            keep("fed factory signature", (lambda s=s: sig_view(s)))
                             mhs, md5s = sketches_of(s)
                             F += [content_rec(m, d) for m, d in zip(mhs, md5s)]
                             # the other exit: sig.minhash (first sketch only), md5 through a fresh signature
@@ -491,9 +958,9 @@ def main():
                     for sp in specs:
                         k, mol, num, scaled, track, seed = sp.split(":")
                         try:
-                            direct.append(MinHash(n=int(num), ksize=int(k), is_protein=(mol == "protein"),
-                                                  dayhoff=(mol == "dayhoff"), hp=(mol == "hp"),
-                                                  track_abundance=bool(int(track)), seed=int(seed), scaled=int(scaled)))
+                            mk = dict(is_protein=(mol == "protein"), dayhoff=(mol == "dayhoff"), hp=(mol == "hp"),
+                                      track_abundance=bool(int(track)), seed=int(seed), scaled=int(scaled))
+                            direct.append(MinHash(n=int(num), ksize=int(k), **mk) if pick(2) else MinHash(int(num), int(k), **mk))
                         except BaseException as e:           # noqa: BLE001
                             direct.append("Dexc:" + exc_name(e))
                     derr = None
@@ -507,9 +974,16 @@ def main():
                     else:
                         for m in direct:
                             D.append(m if isinstance(m, str) else content_rec(m, SourmashSignature(m).md5sum()))
+                            if not isinstance(m, str):
+                                keep("directly created sketch", (lambda m=m: sorted(m.hashes.items())))
                     res = "feed F " + fpart + " D " + " ".join(D)
                 else:
                     res = "bad-op"
+                if op != "#":
+                    reverify()
+        except ViewError as e:
+            del KEPT[:]
+            res = "view-mismatch " + " ".join(str(e).split())[:400]
         except BaseException as e:          # noqa: BLE001
             res = "err " + exc_name(e) + (" " + reason_of(e) if op in ("parse", "factory", "first") else "")
         out.write(res + "\n")
